@@ -317,6 +317,18 @@ class Evaluator:
             self.read_vars.append(name[1])
             val = self.env_vars.get(name[1])
             return ("none",) if val is None else ("some", ("str", val))
+        if cal in ("core::mem::replace", "core::mem::take") and e.get("args"):
+            key = hir.place_str(hir.peel(e["args"][0]))
+            if key is None or key not in env:
+                raise Unrecognised(f"{cal} on an untracked place")
+            old = env[key]
+            new = self.ev(e["args"][1], env) if cal.endswith("replace") else ("default",)
+            if isinstance(env, Env):
+                env.assign(key, new)
+            else:
+                env[key] = new
+            self.stores.append((key, new))
+            return old
         args = [self.ev(a, env) for a in e["args"]]
         short = cal.split("::")[-1]
         if cal.startswith("core::option::Option::<T>::"):
